@@ -6,6 +6,7 @@ import ast
 from ..core import AnalysisError, call_name, dotted, kwarg, norm, walk_no_nested, has_starstar
 from ..guards import A, And, Not, Or, T, equivalent, implies, path_formula, show_formula, sites
 from ..registry import describe, rule
+from .. import tmatch as tm
 from ..util import calls_named, peel, returns_of, const_str
 
 CI = "pgmpy/estimators/CITests.py"
